@@ -43,11 +43,13 @@ def opRun (j : Json) : R Json := do
     let ch := chainOf nb comp
     let linear := comp.length == 1 || isLinear ch
     let naps := ch.aps.length
+    let singleSN := ((ch.aps.map (snOf t)).eraseDups).length ≤ 1
     match p.2 with
     | none =>
       -- skipped: allowed iff not a simple chain, or fewer than two articulation points (the property leaves that case open)
       (lo, outs ++ [obj [("name", js p.1), ("written", jb false), ("linear", jb linear), ("aps", jn naps),
-                         ("ok", jb (!linear || (naps < 2 && comp.length != 1)))]])
+                         ("single_sn", jb singleSN),
+                         ("ok", jb (!linear || !singleSN || (naps < 2 && comp.length != 1)))]])
     | some tout =>
       let tag := tagsOfFile tout
       let n : Int := if comp.length == 1 then 1 else ((ch.aps.length + ch.bubbles.length : Nat) : Int)
@@ -55,7 +57,7 @@ def opRun (j : Json) : R Json := do
                      else chainSpecB nb comp (soOf t) tag lo
       let fileOk := specWritten t comp tag withSeq tout
       (lo + n, outs ++ [obj [("name", js p.1), ("written", jb true), ("linear", jb linear), ("aps", jn naps),
-                             ("chain_ok", jb chainOk), ("file_ok", jb fileOk), ("lo", ji lo),
+                             ("chain_ok", jb chainOk), ("file_ok", jb fileOk), ("lo", ji lo), ("single_sn", jb singleSN),
                              ("ok", jb (linear && chainOk && fileOk)),
                              ("roles", jl (fun v => Json.arr #[js v, js (if ch.aps.contains v || comp.length == 1 then "orange" else "blue")]) comp)]])
   let (_, res) := impl.foldl step (0, [])
